@@ -44,7 +44,8 @@ def gen(data: bytes):
     cls = tp.pick(["MG", "SMG", "CRG", "SCRG", "SMG", "SCRG"])
     big = tp.chance(40)
     m = S.gen_model(tp, cls, nmax=30 if big else 8, nmin=1, none_parity=0,
-                    wide=True)
+                    wide=True,
+                    family="bigstar" if tp.chance(6) else None)
     a = S.shuffled_recipe(tp, m)
     via = ("build", "relabel-copy", "relabel-inplace")[
         tp.weighted([7, 2, 1])]
